@@ -14,7 +14,8 @@ FINDINGS = [('namedtuple', 'namedtupleStructuralArgument'), ('untruthful', None)
 
 def cases(rng, tier):
     n = 1500 if tier == 'quick' else 12000
-    return C.build_cases(rng, n, calls_per=3, style='kw', tag='c03a') + C.build_cases(rng, n // 3, calls_per=2, style=None, tag='c03b')
+    return C.build_cases(rng, n, calls_per=3, style='kw', tag='c03a') + C.build_cases(rng, n // 3, calls_per=2, style=None, tag='c03b') \
+        + C.scenario_cases(rng, n // 8, style='kw', tag='c03sc') + C.scenario_cases(rng, n // 16, tag='c03sd')
 
 
 def search(rng, tier, near):
